@@ -50,6 +50,8 @@ def run(item_id, spec, repo, workdir):
             out['detail'] = 'harness has no /*{REAL}*/ placeholder'
             return out
         h = h.replace('/*{REAL}*/', '\n'.join(texts))
+        if b.get('label'):
+            h = h.replace('LABEL_OF_THE_ISOLATED_FUNCTION', b['label'])
         d = os.path.join(workdir, 'bounded')
         os.makedirs(d, exist_ok=True)
         name = re.sub(r'[^A-Za-z0-9_]', '_', item_id)
